@@ -7,6 +7,6 @@ CONTRACTS = list(_H) + [ParentSet, PropertyGroupAdd, PropertyGroupRemove, Remove
 
 MANIFEST = {
     "category": "proof",
-    "text": "Structural validity clause by clause over the symbolic link graph: init_geoh5 creates the skeleton (project group, Data/Groups/Objects, Types with its three containers, all distinct nodes); write_entity stores a new entity under its own identifier with its own fresh child containers, a Type entry that is the shared type node itself, and sets Root to the root group's node; write_to_parent makes the parent's entry the child's own flat node (a hard link, never a copy) in the container of the child's kind; remove_child / remove_entity leave no dangling entry behind in the parent they are given; Workspace.remove_children unlinks each child from the container of its own kind; remove_recursively / remove_data_from_groups / PropertyGroup.remove_properties / add_properties keep property groups listing only children of their own object. WF(file) after every close of seeded histories is a bounded stand-in; one open known finding (KF-C05-1: removal through the parent leaves an orphan node).",
+    "text": "Structural validity clause by clause over the symbolic link graph: init_geoh5 creates the skeleton (project group, Data/Groups/Objects, Types with its three containers, all distinct nodes); write_entity stores a new entity under its own identifier with its own fresh child containers, a Type entry that is the shared type node itself, and sets Root to the root group's node; write_to_parent makes the parent's entry the child's own flat node (a hard link, never a copy) in the container of the child's kind; remove_child / remove_entity leave no dangling entry behind in the parent they are given; Workspace.remove_children unlinks each child from the container of its own kind; remove_recursively / remove_data_from_groups / PropertyGroup.remove_properties / add_properties keep property groups listing only children of their own object. WF(file) after every close of seeded histories is a bounded stand-in; one open known finding (KF-C05-1: removal through the parent leaves an orphan node). ObjectBase.remove_children is verified to drop a held child from the child list and from the object's property groups even when the child's parent field already points elsewhere; the five _all_<kind> listings sweep their own container.",
     "note": "Same T-h5 assumptions as C09; 'exactly one parent and reachable from Root' and 'no identifier occurs twice across containers' are only checked by the bounded file checker (the registries are per kind: see C06); write_entity_type's sharing is a call summary.",
 }
